@@ -345,6 +345,87 @@ func c09E2ECheck(c c09E2E) *evid.Fail {
 	return nil
 }
 
+// sameText: one connection prepares the same unqualified text first with current keyspace system (answered by the
+// proxy) and then with a user keyspace (forwarded); the backend derives prepared ids from the text alone. The EXECUTE
+// of the second id is a user statement and must be forwarded.
+type c09SameText struct {
+	Version int    `json:"version"`
+	Table   string `json:"table"`
+	UserKs  string `json:"user_keyspace"`
+}
+
+func c09SameTextCheck(c c09SameText) *evid.Fail {
+	e, err := startEnv(envOpts{Hosts: 1, NumConns: 1, Version: primitive.ProtocolVersion4, MaxVersion: primitive.ProtocolVersionDse2, Keyspaces: []string{"ks1", "ks2"}})
+	if err != nil {
+		return evid.Failf("harness-env", "%v", err)
+	}
+	defer e.Close()
+	e.Cluster.TextOnlyIDs = true
+	v := primitive.ProtocolVersion(c.Version)
+	cl, err := e.client(v, "")
+	if err != nil {
+		return evid.Failf("harness-client", "%v", err)
+	}
+	stream := int16(10)
+	do := func(msg message.Message) (message.Message, *evid.Fail) {
+		stream++
+		from := cl.NumFrames()
+		if err := cl.SendMsg(v, stream, msg, false); err != nil {
+			return nil, evid.Failf("harness-send", "%v", err)
+		}
+		rp := cl.WaitStream(stream, from, 1, posWait)
+		if rp == nil {
+			return nil, evid.Failf("no-reply", "no reply to %v", msg)
+		}
+		b, err := cl.Decode(rp)
+		if err != nil {
+			return nil, evid.Failf("undecodable", "%v", err)
+		}
+		return b.Message, nil
+	}
+	opts := &message.QueryOptions{Consistency: primitive.ConsistencyLevelOne}
+	text := "SELECT * FROM " + c.Table
+	if m, f := do(&message.Query{Query: "USE system", Options: opts}); f != nil {
+		return f
+	} else if _, ok := m.(*message.SetKeyspaceResult); !ok {
+		return evid.Failf("harness-use", "USE system answered with %v", m)
+	}
+	m1, f := do(&message.Prepare{Query: text})
+	if f != nil {
+		return f
+	}
+	p1, ok := m1.(*message.PreparedResult)
+	if !ok {
+		return evid.Failf("system-prepare-failed", "PREPARE of %q with current keyspace system answered with %v", text, m1)
+	}
+	if m, f := do(&message.Query{Query: "USE " + c.UserKs, Options: opts}); f != nil {
+		return f
+	} else if _, ok := m.(*message.SetKeyspaceResult); !ok {
+		return evid.Failf("harness-use", "USE %s answered with %v", c.UserKs, m)
+	}
+	m2, f := do(&message.Prepare{Query: text})
+	if f != nil {
+		return f
+	}
+	p2, ok := m2.(*message.PreparedResult)
+	if !ok {
+		return evid.Failf("user-prepare-failed", "PREPARE of %q with current keyspace %s answered with %v", text, c.UserKs, m2)
+	}
+	tok := nextToken()
+	ex := &message.Execute{QueryId: p2.PreparedQueryId, Options: &message.QueryOptions{Consistency: primitive.ConsistencyLevelOne, PositionalValues: []*primitive.Value{primitive.NewValue([]byte(tok))}}}
+	if v.SupportsResultMetadataId() {
+		ex.ResultMetadataId = p2.ResultMetadataId
+	}
+	m3, f := do(ex)
+	if f != nil {
+		return f
+	}
+	if len(e.Cluster.Attempts(tok)) == 0 {
+		return evid.Failf("user-statement-intercepted:same-text-after-system-keyspace", "EXECUTE of %q prepared in keyspace %s (id %x; the same text prepared earlier with current keyspace system got id %x) never reached the backend; the client got %v", text, c.UserKs, p2.PreparedQueryId, p1.PreparedQueryId, m3)
+	}
+	return nil
+}
+
 func TestC09(t *testing.T) {
 	rec := evid.New("C09", "exploration",
 		"statements generated from the product of current keyspace {none, system in any case, quoted system, quoted \"System\", user, quoted user} x qualifier {absent, system in any case/quoted, other, look-alikes} x table {the 7 virtualised tables in lower/upper/mixed case and quoted, look-alikes, user tables} x shape {SELECT with selector lists / JSON / DISTINCT / tails / terminators, USE, INSERT/UPDATE/DELETE/BATCH/DDL that mention the table}, keyword case and whitespace varied; "+
@@ -369,6 +450,26 @@ func TestC09(t *testing.T) {
 		}
 		return s
 	}, c09ParserCheck)
+
+	runEnum(t, rec, "same-text", func(yield func(c09SameText) bool) {
+		shard, shards := evid.Shard()
+		i := 0
+		for _, v := range []int{3, 4, 5, 65, 66} {
+			for _, tb := range []string{"local", "peers"} {
+				for _, ks := range []string{"ks1", "ks2"} {
+					i++
+					if i%shards != shard {
+						continue
+					}
+					c := c09SameText{Version: v, Table: tb, UserKs: ks}
+					rec.Case("sametext:"+js(c), "same-text-two-keyspaces")
+					if !yield(c) {
+						return
+					}
+				}
+			}
+		}
+	}, c09SameTextCheck)
 
 	runProp(t, rec, "e2e", perShard(evid.Pick(4000, 80000)), func(rt *rapid.T) c09E2E {
 		c := c09E2E{Version: int(protogen.Version(rt)), NoSysKs: rapid.IntRange(0, 2).Draw(rt, "nosysks") == 0}
